@@ -200,7 +200,16 @@ func optionIniName(option *Option) string {
 		return name
 	}
 
-	return option.field.Name
+	if len(option.field.Name) != 0 {
+		return option.field.Name
+	}
+
+	// an option that was not declared as a struct field (see AddOption)
+	if len(option.LongName) != 0 {
+		return option.LongName
+	}
+
+	return string(option.ShortName)
 }
 
 func writeGroupIni(cmd *Command, group *Group, namespace string, writer io.Writer, options IniOptions) {
